@@ -12,7 +12,7 @@ def _exc(e):
 
 
 def check_image(ctx, fmt, img, view, built: disk.Built, rng: random.Random, *, full: bool, attrs: dict,
-                cap: int = 64, sectors_api=None, fresh_every: int = 7, extra_requests=()):
+                cap: int = 64, sectors_api=None, fresh_every: int = 7, extra_requests=(), max_len: int = 8 << 20):
     """Replay all derived requests of one concretised image. Returns True when everything matched.
 
     sectors_api: callable(stream, sector, count) -> bytes, or None."""
@@ -34,7 +34,7 @@ def check_image(ctx, fmt, img, view, built: disk.Built, rng: random.Random, *, f
         ctx.violation(a, {**det, "expected_size": built.size, "got_size": getattr(s, "size", None)})
         return False
     ncells = len(view)
-    reqs = disk.requests_for(ncells, built.cell, built.size, rng, full=full, cap=cap) + list(extra_requests)
+    reqs = disk.requests_for(ncells, built.cell, built.size, rng, full=full, cap=cap, max_len=max_len) + list(extra_requests)
     for idx, (o, n) in enumerate(reqs):
         exp = disk.expected(view, o, n, built)
         oc, nc = o // built.cell, (o + n - 1) // built.cell - o // built.cell + 1
